@@ -114,27 +114,11 @@ def path_counts(fsa_obj, L):
 
 
 def even_cost(A, limit):
-    """Upper estimate of the number of queue pops FSA.automaton_multiple(2) performs on A: it marks a
-    state visited when it is popped, not when it is queued, so a state is queued once per two-letter
-    path that reaches it before its first pop, i.e. about once per accepted word of its breadth-first
-    depth.  Used only to decide whether building the even-length variant is affordable."""
+    """Number of two-letter paths FSA.automaton_multiple(2) enumerates on A (it visits every state once,
+    marking states when they are queued).  Used only to decide whether building the even-length variant is
+    affordable; with the quadratic _hidden_vertices/add_edges cost of the library this stays small."""
     gd = A.graph_dict
-    cur = {}
-    for s in A.start_vertices:
-        cur[s] = 1
-    visited = set()
-    pops = 0
-    while cur and pops <= limit:
-        pops += sum(cur.values())
-        visited |= set(cur)
-        nxt = {}
-        for v, c in cur.items():
-            for _, w1 in gd[v].items():
-                for _, w2 in gd[w1].items():
-                    if w2 not in visited:
-                        nxt[w2] = nxt.get(w2, 0) + c
-        cur = nxt
-    return pops
+    return sum(len(gd[w1]) for v in gd for _, w1 in gd[v].items())
 
 
 def min_pairwise_distance_below(mats, tol):
